@@ -11,8 +11,24 @@ tokens.
    `is_num && (b == '.' || ((b == '+' || b == '-') && strchr("eEpP", a)))` — a pp-number ending in
    `.`, `+` or `-` followed by an alphanumeric character was printed glued (`f(1.)f(x)` → `1.x`,
    `f(1e+)f(5)` → `1e+5`).
+
+Second part: the SECOND PASS (`chibicc -E a.c -o b.c; chibicc -E b.c`).  `Props.C19.C19_idempotent` proves it is the identity
+when the printed token list is inert for the table of `init_macros`.  Outside that region the full statement
+`C19_idempotent_Statement` is FALSE for the actual preprocessor; the witnesses below run the whole pipeline over the models
+(`passText`: tokenize, `preprocess2` of Model/PP.lean from the table of `init_macros`, print_tokens) in the kernel, and each
+was confirmed on the binary built from /repo (second `-E` differs AND compiling the `-E` text fails or differs):
+
+3. a name of the initial table survives the first pass and is a macro again for the second (the text carries neither
+   `#undef`s nor hide sets):   `#undef linux` / `int linux = 1;`  →  `int linux = 1;`  →  `int 1 = 1;`
+                               `#define linux linux` / `linux`    →  `linux`           →  `1`          (painted blue, 6.10.3.4p2)
+                               `#define unix() 0` / `unix`        →  `unix`            →  `1`          (function-like, no `(`)
+                               `#define unsigned __SIZE_TYPE__` / `__SIZE_TYPE__ x;` → `__SIZE_TYPE__ long x;` → `unsigned long long x;`
+4. a `#` produced by macro expansion starts a line (6.10.3.4p3: not a directive for the first pass):
+                               `#define H #` / `H define X 1` / `X`  →  `# define X 1` / `X`  →  `1`
+Both are inherent in writing preprocessed text without a marker that it is preprocessed (gcc -E behaves the same and offers
+`-fpreprocessed` / the `.i` suffix; chibicc has neither).
 -/
-import ChibiVerif.Model.PrintTokens
+import ChibiVerif.Props.C19
 
 namespace ChibiVerif.Findings.C19
 open ChibiVerif.Lex ChibiVerif.LexChar ChibiVerif.Gen.Lex
@@ -52,5 +68,112 @@ theorem C19_fixed_ppnumber_tail :
     spellings (lex ([49, 46] ++ [120])) = .ok [[49, 46, 120]] ∧ needSpace [49, 46] [120] = true ∧
     selfLexing [49, 101, 43] = true ∧ selfLexing [53] = true ∧ needSpaceV1 [49, 101, 43] [53] = false ∧
     spellings (lex ([49, 101, 43] ++ [53])) = .ok [[49, 101, 43, 53]] ∧ needSpace [49, 101, 43] [53] = true := by decide
+
+/-! ## The second pass outside the inert region -/
+section SecondPass
+open ChibiVerif.C19Bridge ChibiVerif.Props.C19
+
+/-- `#undef linux` / `int linux = 1;`: the first pass prints `int linux = 1;`, the second pass `int 1 = 1;` -/
+theorem C19_second_pass_undef_predefined :
+    passText 100 "a.c" (cps "#undef linux\nint linux = 1;\n") = .ok (cps "int linux = 1;\n") ∧
+    passText 100 "b.c" (cps "int linux = 1;\n") = .ok (cps "int 1 = 1;\n") := by decide +kernel
+
+/-- `#define linux linux` / `linux`: the painted token prints as `linux`; the paint is not in the text -/
+theorem C19_second_pass_painted_predefined :
+    passText 100 "a.c" (cps "#define linux linux\nlinux\n") = .ok (cps "linux\n") ∧
+    passText 100 "b.c" (cps "linux\n") = .ok (cps "1\n") := by decide +kernel
+
+/-- `#define unix() 0` / `unix`: a function-like macro name without `(` is left alone by the first pass -/
+theorem C19_second_pass_funclike_predefined :
+    passText 100 "a.c" (cps "#define unix() 0\nunix;\n") = .ok (cps "unix;\n") ∧
+    passText 100 "b.c" (cps "unix;\n") = .ok (cps "1;\n") := by decide +kernel
+
+/-- `#define unsigned __SIZE_TYPE__` / `__SIZE_TYPE__ x;`: no directive names the initial-table macro; its own expansion
+    `unsigned long` re-enters it through the user macro, painted: the first pass prints `__SIZE_TYPE__ long x;` -/
+theorem C19_second_pass_painted_through_user_macro :
+    passText 100 "a.c" (cps "#define unsigned __SIZE_TYPE__\n__SIZE_TYPE__ x;\n") = .ok (cps "__SIZE_TYPE__ long x;\n") ∧
+    passText 100 "b.c" (cps "__SIZE_TYPE__ long x;\n") = .ok (cps "unsigned long long x;\n") := by decide +kernel
+
+/-- `#undef __LINE__` / `int __LINE__;`: the second pass substitutes the line of the `-E` text (and the handler's token
+    starts a line of its own) -/
+theorem C19_second_pass_undef_builtin :
+    passText 100 "a.c" (cps "#undef __LINE__\nint __LINE__;\n") = .ok (cps "int __LINE__;\n") ∧
+    passText 100 "b.c" (cps "int __LINE__;\n") = .ok (cps "int\n1;\n") := by decide +kernel
+
+/-- `#define H #` / `H define X 1` / `X`: the expansion result `#` starts a line of the text and is a directive for the
+    second pass -/
+theorem C19_second_pass_hash_from_expansion :
+    passText 100 "a.c" (cps "#define H #\nH define X 1\nX\n") = .ok (cps "# define X 1\nX\n") ∧
+    passText 100 "b.c" (cps "# define X 1\nX\n") = .ok (cps "1\n") ∧
+    passText 100 "a.c" (cps "#define H #\nH error\n") = .ok (cps "# error\n") ∧
+    passText 100 "b.c" (cps "# error\n") = .error (.pp .errorDirective) := by decide +kernel
+
+/-- the token list the first pass holds for `#undef linux` / `linux` -/
+def survivingName : List Tok := [⟨.ident, [108, 105, 110, 117, 120], true, false⟩]
+
+/-- it satisfies every hypothesis of `C19_idempotent` except inertness -/
+theorem survivingName_not_inert :
+    (∀ t ∈ survivingName, selfLexing t.text = true) ∧ (∀ t ∈ survivingName.head?, t.atBol = true) ∧
+    validText survivingName = true ∧ Inert isInitMacro survivingName = false := by decide
+
+theorem secondPass_survivingName (fuel : Nat) (file : String) :
+    secondPass fuel file survivingName = [] ∨ secondPass fuel file survivingName = [⟨.ppnum, [49], true, false⟩] := by
+  match fuel with
+  | 0 => exact .inl rfl
+  | 1 => exact .inl rfl
+  | 2 => exact .inr rfl
+  | n + 3 => exact .inr rfl
+
+/-- **`C19_idempotent_Statement` is false for the actual second pass**, whatever fuel and display name: on the one-token
+    list `linux` the second pass prints `1` (or, with fuel < 2, nothing) -/
+theorem C19_finding_second_pass_surviving_name (fuel : Nat) (file : String) :
+    ¬ C19_idempotent_Statement (secondPass fuel file) := by
+  intro h
+  obtain ⟨ts', hl, hp⟩ := h survivingName (by decide) (by decide)
+  have h1 : lex (printTokens survivingName) = .ok survivingName := by decide
+  rw [h1] at hl
+  cases hl
+  rcases secondPass_survivingName fuel file with h2 | h2 <;> rw [h2] at hp <;> revert hp <;> decide
+
+/-- the token list the first pass holds for `#define H #` / `H pragma` / `a`: `#` (at_bol), `pragma`, `a` (at_bol) -/
+def hashAtBol : List Tok :=
+  [⟨.punct, [35], true, false⟩, ⟨.ident, [112, 114, 97, 103, 109, 97], false, true⟩, ⟨.ident, [97], true, false⟩]
+
+theorem secondPass_hashAtBol (fuel : Nat) (file : String) :
+    secondPass fuel file hashAtBol = [] ∨ secondPass fuel file hashAtBol = [⟨.ident, [97], true, false⟩] := by
+  match fuel with
+  | 0 => exact .inl rfl
+  | 1 => exact .inl rfl
+  | 2 => exact .inr rfl
+  | n + 3 => exact .inr rfl
+
+/-- … and it is false on a list without any macro name: `# pragma` / `a` loses its first line -/
+theorem C19_finding_second_pass_hash_at_bol :
+    (∀ t ∈ hashAtBol, selfLexing t.text = true) ∧ Inert isInitMacro hashAtBol = false ∧
+    hashAtBol.all (fun t => !isInitMacro t.text) = true ∧
+    lex (printTokens hashAtBol) = .ok hashAtBol ∧
+    ∀ fuel file, printTokens (secondPass fuel file hashAtBol) ≠ printTokens hashAtBol := by
+  refine ⟨by decide, by decide, by decide, by decide, ?_⟩
+  intro fuel file hp
+  rcases secondPass_hashAtBol fuel file with h2 | h2 <;> rw [h2] at hp <;> revert hp <;> decide
+
+/-- `#define E` / `E # pragma p` / `a`: the `#` is the first token of the output but was not at the beginning of a line for
+    the first pass (the empty expansion of `E` was); printed ` # pragma p`, it is a directive for the second pass.  This is
+    why `C19_idempotent` asks for inertness of `normFirst ts`.  Also the harmless case: `#define E` / `E x` prints ` x`, the
+    second pass `x` (same token, the blank is gone). -/
+theorem C19_second_pass_first_token :
+    passText 100 "a.c" (cps "#define E\nE # pragma p\na\n") = .ok (cps " # pragma p\na\n") ∧
+    passText 100 "b.c" (cps " # pragma p\na\n") = .ok (cps "a\n") ∧
+    passText 100 "a.c" (cps "#define E\nE x\n") = .ok (cps " x\n") ∧
+    passText 100 "b.c" (cps " x\n") = .ok (cps "x\n") := by decide +kernel
+
+/-- the token list of that first case: inert as it stands, not inert once its first token is at the beginning of a line -/
+theorem C19_second_pass_first_token_region :
+    let ts : List Tok := [⟨.punct, [35], false, true⟩, ⟨.ident, [112, 114, 97, 103, 109, 97], false, true⟩,
+      ⟨.ident, [112], false, true⟩, ⟨.ident, [97], true, false⟩]
+    printTokens ts = cps " # pragma p\na\n" ∧ Inert isInitMacro ts = true ∧ Inert isInitMacro (normFirst ts) = false := by
+  decide +kernel
+
+end SecondPass
 
 end ChibiVerif.Findings.C19
